@@ -162,12 +162,41 @@ Definition entry_ok (e : entry) : bool :=
   | EAgent id m => (lenN id =? 16) && negb (all_zero id) && (m <? 65536)
   end.
 
+(** * CIDR networks: ipNetToProtocolRoute / protocolRouteToIPNet
+
+    A configured network is a net.IPNet as net.ParseCIDR returns it: the
+    address bytes (4, or 16 for every IPv6 spelling including IPv4-mapped
+    ::ffff:a.b.c.d), the number of leading ones of the mask and the mask's
+    width in bits (32 or 128).  The wire route takes its family from the MASK
+    width, its prefix length from the mask's ones, and carries the address
+    bytes as they are; the receiver rebuilds the same (address, ones, bits)
+    triple, so that both routing tables canonicalise the same net.IPNet
+    (routing.canonicalNetwork: ::ffff:a.b.c.d/96+n becomes a.b.c.d/n). *)
+Definition ipnet := (bytes * (N * N))%type.   (* address, ones, bits *)
+Definition ipnet_to_route (n : ipnet) (metric : N) : Route :=
+  let '(ip, (ones, bits)) := n in
+  ((if bits =? 128 then fam_ipv6 else fam_ipv4), (ones mod 256, (ip, metric))).
+(** protocolRouteToIPNet; [None]: not a CIDR route, or a prefix length the
+    family's mask cannot have (net.CIDRMask returns nil, the table rejects it) *)
+Definition route_to_ipnet (r : Route) : option ipnet :=
+  let '(f, (pl, (pre, _))) := r in
+  if is_nil pre then None
+  else if f =? fam_ipv4 then (if pl <=? 32 then Some (firstN 4 pre, (pl, 32)) else None)
+  else if f =? fam_ipv6 then (if pl <=? 128 then Some (firstN 16 pre, (pl, 128)) else None)
+  else None.
+(** a network as net.ParseCIDR produces it *)
+Definition ipnet_ok (n : ipnet) : bool :=
+  let '(ip, (ones, bits)) := n in
+  ((bits =? 32) && (lenN ip =? 4) && (ones <=? 32)) || ((bits =? 128) && (lenN ip =? 16) && (ones <=? 128)).
+
 (** * Correspondence oracle *)
 Inductive acase :=
 | CAnn (origin name : bytes) (seq1 : N) (routes : list Route) (path seenby : list bytes) (obs : list bytes)
 | CRep (origin name : bytes) (seq : N) (routes : list Route) (path : list bytes) (obs : list bytes)
 | CFwd (local origin name : bytes) (seq : N) (routes : list Route) (path seenby : list bytes) (obs : bytes)
-| CName (cfg obs : bytes).
+| CName (cfg obs : bytes)
+(** configured networks (address, (ones, (bits, metric))) and the CIDR routes put on the wire for them (any order) *)
+| CNets (nets : list (bytes * (N * (N * N)))) (emitted : list Route).
 
 Definition acase_ok (c : acase) : bool :=
   match c with
@@ -178,6 +207,12 @@ Definition acase_ok (c : acase) : bool :=
   | CFwd l o n s rs p sb obs =>
       option_eqb bytes_eqb (reflood l o n s rs p sb) (Some obs)
   | CName cfg obs => bytes_eqb (cut_name cfg) obs
+  | CNets nets emitted =>
+      let req (a b : Route) := (N.eqb (fst a) (fst b)) && (N.eqb (fst (snd a)) (fst (snd b))) &&
+                               bytes_eqb (fst (snd (snd a))) (fst (snd (snd b))) && (N.eqb (snd (snd (snd a))) (snd (snd (snd b)))) in
+      (lenN nets =? lenN emitted) &&
+      forallb (fun x : bytes * (N * (N * N)) =>
+                 let '(ip, (ones, (bits, m))) := x in existsb (req (ipnet_to_route (ip, (ones, bits)) m)) emitted) nets
   end.
 Fixpoint amismatches_from (i : N) (cs : list acase) : list N :=
   match cs with
